@@ -2,6 +2,7 @@
 mod absout;
 mod concretise;
 mod facets;
+mod mutate;
 mod run;
 mod sink;
 #[allow(dead_code, unused_imports, clippy::all)]
